@@ -83,9 +83,8 @@ Definition has_token (v token : bytes) : bool :=
 (* ---------- strconv.ParseInt(s, 10, 64) restricted to what WriteHeader needs: Some v for a valid value ---------- *)
 Definition parse_int (s : bytes) : option Z :=
   let '(neg, d) := match s with
-                   | 43 :: r => (false, r)
-                   | 45 :: r => (true, r)
-                   | _ => (false, s)
+                   | c :: r => if c =? 43 then (false, r) else if c =? 45 then (true, r) else (false, s)
+                   | [] => (false, s)
                    end in
   match parse_dec d with
   | None => None
@@ -377,6 +376,29 @@ Definition parse_status_line (l : bytes) : option (Z * Z) :=
 Definition canon_lower_eq (k name : bytes) : bool := eq_fold k name.
 Definition get_all_ci (name : bytes) (h : fields) : list bytes :=
   map snd (filter (fun kv => canon_lower_eq (fst kv) name) h).
+(* the body part, once status line and header fields are known *)
+Definition ref_parse_body (is_head : bool) (minor status : Z) (fs : fields) (rest : bytes) : option presp :=
+  let mk fr b c t := Some {| p_minor := minor; p_status := status; p_fields := fs; p_framing := fr;
+                             p_body := b; p_complete := c; p_rest := t |} in
+  if is_head || negb (body_allowed_status status) then mk 0 [] true rest
+  else
+    match get_all_ci s_te fs, get_all_ci s_cl fs with
+    | [te], [] =>
+      if eq_fold te s_chunked && (minor =? 1) then
+        match strict_chunks (S (length rest)) rest [] with
+        | Some (b, t, c) => mk 2 b c t
+        | None => None
+        end
+      else None
+    | [], [cl] =>
+      match parse_dec cl with
+      | Some n => if n <=? blen rest then mk 1 (firstn (Z.to_nat n) rest) true (skipn (Z.to_nat n) rest)
+                  else mk 1 rest false []
+      | None => None
+      end
+    | [], [] => mk 3 rest true []
+    | _, _ => None
+    end.
 Definition ref_parse (is_head : bool) (s : bytes) : option presp :=
   match split_crlf s with
   | None => None
@@ -386,28 +408,7 @@ Definition ref_parse (is_head : bool) (s : bytes) : option presp :=
     | Some (minor, status) =>
       match strict_fields (S (length r)) r [] with
       | None => None
-      | Some (fs, rest) =>
-        let mk fr b c t := Some {| p_minor := minor; p_status := status; p_fields := fs; p_framing := fr;
-                                   p_body := b; p_complete := c; p_rest := t |} in
-        if is_head || negb (body_allowed_status status) then mk 0 [] true rest
-        else
-          match get_all_ci s_te fs, get_all_ci s_cl fs with
-          | [te], [] =>
-            if eq_fold te s_chunked && (minor =? 1) then
-              match strict_chunks (S (length rest)) rest [] with
-              | Some (b, t, c) => mk 2 b c t
-              | None => None
-              end
-            else None
-          | [], [cl] =>
-            match parse_dec cl with
-            | Some n => if n <=? blen rest then mk 1 (firstn (Z.to_nat n) rest) true (skipn (Z.to_nat n) rest)
-                        else mk 1 rest false []
-            | None => None
-            end
-          | [], [] => mk 3 rest true []
-          | _, _ => None
-          end
+      | Some (fs, rest) => ref_parse_body is_head minor status fs rest
       end
     end
   end.
